@@ -286,75 +286,86 @@ def work(job, scratch):
                 shutil.rmtree(d, ignore_errors=True)
         return res
 
-    # multi-worker: determinism + re-issue of the recorded in-flight jobs
+    # multi-worker: determinism + re-issue of the recorded in-flight jobs,
+    # over a chain of two kills (the second one shortly after the restart,
+    # while re-issued jobs are typically still running)
     from vf.rig_sched import read_restart
+    from vf.sched_case import run_case
+    from vf.monitors import LockMonitor
     for i, c in enumerate(job["cases"]):
         spec, k = c["spec"], c["kill"]
         N = spec["steps"]
+        k2 = 1 + (spec["seed"] % 3)
+        if k + k2 >= N - 1:
+            k2 = 1
+        segs = [{"steps": N, "kill_after": k}, {"steps": N, "kill_after": k2},
+                {"steps": N}]
 
         class Reissue:
             def __init__(self):
                 self.issued = {}
+                self.recorded = {}
 
             def after_prep(self, rig, state, out, md_items):
                 self.issued.setdefault(rig.segment, []).append(
                     [[int(e) + state._offset for e in out["ens_nums"]],
                      [str(p) for p in out["pnum_old"]]])
+
+            def after_segment(self, rig, si, outc):
+                try:
+                    rec = read_restart(rig.cdir)["current"]["locked"]
+                    self.recorded[si] = [[list(a), [str(x) for x in b]]
+                                         for a, b in rec]
+                except Exception:
+                    self.recorded[si] = None
+
+        def run(cdir):
+            m, lm = Reissue(), LockMonitor()
+            r, info = run_case(dict(spec, segments=segs), cdir, [m, lm])
+            return m, r, info
         d1 = os.path.join(scratch, f"m{i}a")
         d2 = os.path.join(scratch, f"m{i}b")
         for d in (d1, d2):
             shutil.rmtree(d, ignore_errors=True)
-        segs = [{"steps": N, "kill_after": k}, {"steps": N}]
-        m1 = Reissue()
-        from vf.sched_case import run_case
-        s = dict(spec, segments=[segs[0]])
-        r1, i1 = run_case(s, d1, [m1])
+        m1, r1, i1 = run(d1)
         res["n"] += 1
-        if i1["outcomes"] != ["killed"]:
-            res["violations"].extend(dict(v, case=c) for v in r1.violations)
-            shutil.rmtree(d1, ignore_errors=True)
-            continue
-        rec = read_restart(d1)["current"]["locked"]
-        rec = [[list(a), [str(x) for x in b]] for a, b in rec]
-        # continue (second process life time) in the same directory
-        from vf import rig_sched as R
-        R.set_restart_steps(d1, N)
-        try:
-            out = r1.run_segment("restart.toml")
-        except BaseException as exc:
-            out = "error"
-            res["violations"].append({
-                "mech": "scheduler-raised", "what": f"restart raised "
-                f"{type(exc).__name__}: {exc}", "case": c})
-        issued = m1.issued.get(1, [])
-        reach("reissue_checked")
-        ev("reissue_checked")
-        ev("recorded_inflight_jobs", len(rec))
-        if issued[:len(rec)] != rec:
-            res["violations"].append({
-                "mech": "inflight-jobs-not-reissued",
-                "what": f"restart issued {issued[:len(rec) + 1]} but the "
-                        f"restart file recorded {rec}", "case": c})
-        # determinism: the same two-segment history again
-        m2 = Reissue()
-        r2, i2 = run_case(dict(spec, segments=segs), d2, [m2])
-        if out == "done" and i2["outcomes"] == ["killed", "done"]:
+        for v in r1.violations:
+            res["violations"].append(dict(v, case=c))
+        for si in (1, 2):
+            rec = m1.recorded.get(si - 1)
+            issued = m1.issued.get(si, [])
+            if rec is None or i1["outcomes"][:si] != ["killed"] * si or \
+                    len(i1["outcomes"]) <= si:
+                continue
+            reach("reissue_checked")
+            ev("reissue_checked")
+            ev("recorded_inflight_jobs", len(rec))
+            if si == 2:
+                ev("reissue_checked_after_second_kill")
+            if issued[:len(rec)] != rec:
+                res["violations"].append({
+                    "mech": "inflight-jobs-not-reissued",
+                    "what": f"restart #{si} issued {issued[:len(rec) + 1]} "
+                            f"but the restart file recorded {rec}",
+                    "case": c, "segments": segs})
+        m2, r2, i2 = run(d2)
+        if i1["outcomes"] == i2["outcomes"] and i1["outcomes"][-1] == "done":
             eq, _, wit = _compare(d1, d2, False)
             reach("determinism_compared")
             ev("determinism_compared")
             if not eq:
                 res["violations"].append({
                     "mech": "not-deterministic", "what": "two runs of the "
-                    "same seed, schedule and kill point differ", "case": c,
+                    "same seed, schedule and kill points differ", "case": c,
                     "diff": wit})
             else:
-                res["sigs"].append(F.history_sig(r2, spec, str(k)))
-        for v in r1.violations + r2.violations:
-            res["violations"].append(dict(v, case=c))
+                res["sigs"].append(F.history_sig(r2, spec, str((k, k2))))
         if len(res["samples"]) < 1:
-            res["samples"].append({"spec": F.brief(spec), "kill_after": k,
-                                   "recorded_locked": rec,
-                                   "issued_after_restart": issued[:4]})
+            res["samples"].append({"spec": F.brief(spec), "kills": [k, k2],
+                                   "recorded_locked": m1.recorded,
+                                   "issued_after_restarts":
+                                   {s_: v[:3] for s_, v in m1.issued.items()
+                                    if s_ > 0}})
         for d in (d1, d2):
             shutil.rmtree(d, ignore_errors=True)
     return res
